@@ -109,11 +109,14 @@ def gen(tier, seed, chunk, nch):
             env = {optgen.ENVP + b"O": b"e", optgen.ENVP + b"M": b"e1"}
             env[optgen.ENVP + var] = e
             cases.append({"decl": ENV_DECL, "env": env, "argv": [], "cls": "env"})
+            if var in (b"T", b"C"):
+                for av in ([b"--no-color"], [b"--color"], [b"-v"], [b"--no-color", b"-v"]):
+                    cases.append({"decl": ENV_DECL, "env": env, "argv": av, "cls": "env+toggle-on-command-line"})
     rng = random.Random("c04-%d-%d" % (seed, chunk))
     # (d) mostly valid vectors with exactly one defect of each rejection condition
     ndef = (6000 if tier == "quick" else 100000) // nch
     while ndef > 0:
-        d = FAM[rng.randrange(len(FAM))] if rng.random() < 0.7 else optgen.rand_decl(rng)
+        d = FAM[rng.randrange(len(FAM))] if rng.random() < 0.7 else optgen.rand_decl(rng, groups=True)
         for reason, v in optgen.defect_vectors(rng, d):
             cases.append({"decl": d, "env": {}, "argv": v, "cls": "one-defect"})
             ndef -= 1
@@ -126,7 +129,7 @@ def gen(tier, seed, chunk, nch):
         elif r < 0.6:
             d = ENV_DECL
         else:
-            d = optgen.rand_decl(rng, env_rate=0.3, required_rate=0.2)
+            d = optgen.rand_decl(rng, env_rate=0.3, required_rate=0.2, groups=True)
         pool = optgen.flat_pool(optgen.token_pool(d))
         benign = optgen.benign_tokens(d) or [b"x"]
         n = rng.randint(0, 6)
